@@ -4,13 +4,13 @@ CONSTANTS
   OvChoices <- OvTiny
   DfChoices <- DfTiny
   SpChoices <- SpNone
-  BoundVals = {24, 7}
+  BoundVals = {24}
   MaxFuncs = 1
   MaxParams = 2
   MaxTotal = 2
   MaxBound = 0
-  MaxVariants = 1
-  MinEmit = 1
+  MaxVariants = 2
+  MinEmit = 2
   SimMode = FALSE
 INVARIANT InvWellFormed
 INVARIANT InvTiles
